@@ -72,7 +72,8 @@ class C24(Check):
     level_note = ("Trusted: Coq kernel, extraction, tools/jdflimits.py (two printers from one structure: JDF text and model case), gcc's "
                   "diagnostics. The model covers only the limit checks and two malformed kinds; the other sanity rules of jdf.c, the parser "
                   "and the code generator are exercised, not modelled.")
-    technique = "Coq proof of the limit decision + differential run of the real parsec-ptgpp (generate and compile) on generated JDF programs"
+    technique = ("Coq proof of the limit decisions (per-flow dependencies, flows, locals and local-definition slots, class-level dependency "
+                 "indices) + differential run of the real parsec-ptgpp (generate-and-compile mode and --Werror -E mode) on generated JDF programs")
     rule = ("random task classes with flow/dependency/local counts concentrated at limit-1, limit, limit+1 (ternary guards weighted), "
             "plus malformed inputs; non-trivial = some count within 1 of a limit or malformed; distinct = case text")
     trusted = ("tools/jdflimits.py printers; gcc -c of the generated C (invoked by ptgpp itself)",)
